@@ -1125,6 +1125,7 @@ func runC15(c *Ctx) {
 			}
 		}
 		c.Check(okMiss, "get/missing-is-miss", "a URL never stored (file does not exist) yields the cache-miss sentinel, other read errors an error", w.FnPos(Get), missDetail)
+		c.c15MissingOnlyMiss(Get, Fr, rf, frR) // and by no other return (must-pass form, extra_c14_15.go)
 	}
 	// the bundle returned is one of those filled: the object itself, or the result of the function that fills it, which
 	// hands back such an object on every exit that reports success (c15ResolveObjs, computed above)
